@@ -15,6 +15,11 @@ Line-protocol driver for C12 (Model/Transmission.lean).  One operation per line,
   outcomes <ages by uid>  -> congenital / prognosis split of `infect` and the step's log (sources, targets)
   unique <targets> <sources>   -> keepFirst + sort (`uids.unique(return_index=True)`), N = kept indices
   netbetaf <β> <dt> <edge betas> <acts>  -> IEEE bits of SexualNetwork.net_beta per edge (doubles, any acts·dt)
+  agnew <id> <low> <high|-> <doCache 0|1>                          a new AgeGroup object in slot <id>
+  agcall <id> <ti> <auids> <ages (auids order)>                     -> U=<returned uids> tc=<ti_cache>   (AgeGroup.__call__)
+  gremove <explicit uids> <dead>                                    -> explicit group after MixingPool.remove_uids
+  poolg <beta> <src group> <dst group> <ti> <auids> <ages (auids order)> <contacts by uid> <r by uid>
+        group = all | age:<id> | fn:<uids> | uids:<uids>            -> C=<new cases> SRC=<resolved> DST=<resolved> SPECSRC=… SPECDST=…
 Numbers: `p/q`, integers, or `m@e` (= m / 2^e, the exact value of a binary float).
 -/
 import StarsimModel.Model.Transmission
@@ -47,6 +52,7 @@ structure St where
   rs : Array Rat := #[]
   rt : Array Rat := #[]
   nets : Array Net := #[]
+  ags : List (Nat × AgeGroup) := []
 
 def St.dstate (st : St) : DState :=
   { susceptible := fun u => st.sus.getD u false
@@ -100,8 +106,69 @@ def parseMap? (s : String) : Option (List (String × List Rat)) :=
     | [k, v] => (parseNums? v).map (fun l => (k, l.toList))
     | _ => none)
 
+def mkPeople (auids : Array Nat) (ages : Array Rat) : People :=
+  { auids := auids.toList
+    age := fun u => match auids.toList.idxOf? u with | some i => ages.getD i 0 | none => 0 }
+
+def St.setAg (st : St) (id : Nat) (g : AgeGroup) : St :=
+  { st with ags := (id, g) :: st.ags.filter (fun kv => kv.1 ≠ id) }
+
+def parseGroup? (st : St) (s : String) : Option (Group × Option Nat) :=
+  if s = "all" then some (.all, none) else
+  match s.splitOn ":" with
+  | ["age", id] => do
+      let i ← id.toNat?
+      let g ← st.ags.lookup i
+      some (.age g, some i)
+  | ["fn", l] => (parseNats? l).map (fun a => (.fn (fun _ => a.toList), none))
+  | ["uids", l] => (parseNats? l).map (fun a => (.explicit a.toList, none))
+  | _ => none
+
+/-- write the cache state of a resolved age group back to its slot (the Python objects are mutable and may be shared) -/
+def St.writeBack (st : St) (slot : Option Nat) (g : Group) : St :=
+  match slot, g with
+  | some i, .age a => st.setAg i a
+  | _, _ => st
+
 def stepLine (st : St) (line : String) : St × String :=
   match words line with
+  | ["agnew", id, low, high, dc] =>
+    match id.toNat?, parseNum? low, (if high = "-" then some none else (parseNum? high).map some), parseBool? dc with
+    | some id, some low, some high, some dc => (st.setAg id { low := low, high := high, doCache := dc }, "ok")
+    | _, _, _, _ => (st, "bad-op")
+  | ["agcall", id, ti, auids, ages] =>
+    match id.toNat?, ti.toInt?, parseNats? auids, parseNums? ages with
+    | some id, some ti, some auids, some ages =>
+      if auids.size ≠ ages.size then (st, "bad-op") else
+      match st.ags.lookup id with
+      | some g =>
+        let res := g.call ti (mkPeople auids ages)
+        (st.setAg id res.1, s!"U={showNats res.2} tc={res.1.tiCache}")
+      | none => (st, "bad-op")
+    | _, _, _, _ => (st, "bad-op")
+  | ["gremove", l, dead] =>
+    match parseNats? l, parseNats? dead with
+    | some l, some dead =>
+      (st, match (Group.explicit l.toList).remove dead.toList with | .explicit l' => showNats l' | _ => "bad-op")
+    | _, _ => (st, "bad-op")
+  | ["poolg", beta, src, dst, ti, auids, ages, contacts, r] =>
+    match parseNum? beta, ti.toInt?, parseNats? auids, parseNums? ages, parseNums? contacts, parseNums? r with
+    | some beta, some ti, some auids, some ages, some contacts, some r =>
+      if auids.size ≠ ages.size then (st, "bad-op") else
+      -- `src` is resolved first; a shared AgeGroup object (same slot) sees the cache the first resolution left
+      match parseGroup? st src with
+      | none => (st, "bad-op")
+      | some (gs, slotS) =>
+        let p := mkPeople auids ages
+        let st1 := st.writeBack slotS (gs.resolve ti p).1
+        match parseGroup? st1 dst with
+        | none => (st, "bad-op")
+        | some (gd, slotD) =>
+          let pg : PoolG := { src := gs, dst := gd, beta := beta, contacts := fun u => contacts.getD u 0 }
+          let res := poolStepG st.dstate pg ti p (fun u => r.getD u 0)
+          let st2 := (st1.writeBack slotD res.1.dst)
+          (st2, s!"C={showNats res.2} SRC={showNats (gs.resolve ti p).2} DST={showNats (gd.resolve ti p).2} SPECSRC={showNats (gs.spec p)} SPECDST={showNats (gd.spec p)}")
+    | _, _, _, _, _, _ => (st, "bad-op")
   | ["state", su, inf, rs, rt] =>
     match parseBits? su, parseBits? inf, parseNums? rs, parseNums? rt with
     | some su, some inf, some rs, some rt => ({ st with sus := su, inf := inf, rs := rs, rt := rt }, "ok")
